@@ -239,6 +239,10 @@ class C15(Check):
         plan["trace_log"] = rng.random() < 0.3
         plan["db_locked"] = rng.random() < 0.25  # one transient 'database is locked' on a row insert (another process reads the database)
         plan["db_close_error"] = rng.random() < 0.15
+        # another process holds the database's write lock when the run entry is completed, for less than the handler's busy
+        # timeout (sqlite's busy handler waits it out): the entry must still get its end time and exit code
+        rng4 = rng_for(seed, "C15-db-busy", index)
+        plan["db_busy_at_end"] = rng4.choice([0.2, 1.5, 6.0]) if rng4.random() < 0.2 else None
         plan["odd_text"] = rng.random() < 0.3  # a marker message that is not valid UTF-8 (file name decoded with surrogateescape)
         plan["net_seed"] = rng.getrandbits(30)
         return plan
@@ -247,7 +251,7 @@ class C15(Check):
         import copy
 
         for key, val in (("lock", False), ("db", False), ("hooks", False), ("pre_hook", "absent"), ("post_hook", "absent"),
-                         ("sigint", None), ("sigint_frac", None), ("db_locked", False), ("db_close_error", False), ("odd_text", False), ("pump", "eager"), ("artifacts", False), ("trace_log", False)):
+                         ("sigint", None), ("sigint_frac", None), ("db_locked", False), ("db_close_error", False), ("db_busy_at_end", None), ("odd_text", False), ("pump", "eager"), ("artifacts", False), ("trace_log", False)):
             if plan.get(key) != val:
                 p = copy.deepcopy(plan)
                 p[key] = val
@@ -307,6 +311,8 @@ class C15(Check):
                 return None
 
             world.sql.fault = db_fault
+        if plan.get("db_busy_at_end") and plan.get("db"):
+            world.sql.lock_triggers.append({"prefix": "UPDATE run_meta SET end_time", "dur": plan["db_busy_at_end"]})
         if plan.get("db_close_error"):
             # the final commit of the database close fails with an error that is NOT "database is locked"
             close_state: dict[str, Any] = {"fired": False}
@@ -417,6 +423,8 @@ class C15(Check):
         for w in ("pre", "post"):
             if plan["hooks"] and plan[f"{w}_hook"] in ("fail", "stderr", "signal"):
                 bump(res["faults"], f"{w}_hook_{plan[f'{w}_hook']}")
+        if world.sql.lock_waits:
+            bump(res["faults"], "database_locked_by_another_process_when_the_run_entry_is_completed", world.sql.lock_waits)
         res["shape"] = (
             f"{kind}|{ex['kind'] if exit_done else 'return'}@{ex['point']}-{ex['pos'] if exit_done else ''}|sig:{where}|"
             f"a{int(plan['artifacts'])}d{int(plan['db'])}l{int(plan['lock'])}h{int(plan['hooks'])}{plan['pre_hook']}/{plan['post_hook']}|{plan['pump']}|{out['kind']}"
